@@ -368,9 +368,38 @@ impl Git {
             content.push('\n');
         }
         std::fs::write(self.dir.join(".gitignore"), content).ok()?;
-        let mut p = String::from_utf8(path.to_vec()).ok()?;
-        if is_dir {
-            p.push('/');
+        let p = String::from_utf8(path.to_vec()).ok()?;
+        // the entry really exists (git resolves "is a directory" with lstat; a
+        // trailing slash on a missing path is instead matched TEXTUALLY, so
+        // that `*a/*` "matches" `xa/` -- an artifact, not git's verdict on the
+        // directory xa)
+        let comps: Vec<&str> = p.split('/').collect();
+        if p.is_empty()
+            || p.contains('\0')
+            || comps.iter().any(|c| c.is_empty() || *c == "." || *c == ".." || c.eq_ignore_ascii_case(".git") || c.eq_ignore_ascii_case(".gitignore"))
+        {
+            return None;
+        }
+        let full = self.dir.join(&p);
+        let top = self.dir.join(comps[0]);
+        let made = if is_dir {
+            std::fs::create_dir_all(&full).is_ok()
+        } else {
+            full.parent().map(|d| std::fs::create_dir_all(d).is_ok()).unwrap_or(false) && std::fs::write(&full, b"").is_ok()
+        };
+        struct Rm(std::path::PathBuf);
+        impl Drop for Rm {
+            fn drop(&mut self) {
+                if self.0.is_dir() {
+                    let _ = std::fs::remove_dir_all(&self.0);
+                } else {
+                    let _ = std::fs::remove_file(&self.0);
+                }
+            }
+        }
+        let _rm = Rm(top);
+        if !made {
+            return None;
         }
         let out = std::process::Command::new("git")
             .current_dir(&self.dir)
@@ -580,9 +609,19 @@ pub fn run_all(ctx: &mut Ctx, z3: &mut Z3, tier: &str, seed: u64, repo: &Path, s
     if ctx.want("I-FILE") && good_lines.len() >= 2 {
         let mut rng = Rng(seed ^ 0xf11e);
         let nfiles = if tier == "thorough" { 1500 } else { 240 };
-        for k in 0..nfiles {
-            let (l1, c1) = good_lines[rng.below(good_lines.len())].clone();
-            let (l2, _c2) = good_lines[rng.below(good_lines.len())].clone();
+        // seed-independent files first (among them the recorded finding's role)
+        let fixed: Vec<(String, String, bool)> = [("a\\/", "b", false), ("*.c", "!a.c", false), ("a/", "!a/b", false), ("A*", "!ab", true)]
+            .iter()
+            .map(|(a, b, c)| (a.to_string(), b.to_string(), *c))
+            .collect();
+        for k in 0..nfiles + fixed.len() {
+            let (l1, l2, c1) = if k < fixed.len() {
+                fixed[k].clone()
+            } else {
+                let (l1, c1) = good_lines[rng.below(good_lines.len())].clone();
+                let (l2, _c2) = good_lines[rng.below(good_lines.len())].clone();
+                (l1, l2, c1)
+            };
             if k % sn != si {
                 continue;
             }
